@@ -980,6 +980,32 @@ def r_client_protocol(ctx):
         else:
             ctx.ok(rid, loc(sfi), f"_send_command | first answer {first!r} -> {want}")
 
+    # a command whose answer did not arrive is not sent again: the protocol is not idempotent (a repeated allocate answers 'conflict', which the data
+    # server takes for "somebody else stored it"; a repeated get opens a second reader that nobody closes)
+    n = 0
+    for exc in ("socket.timeout", "builtins.TimeoutError", "builtins.OSError"):
+        ip = Interp(repo, call_models={**MODELS}, max_while=3, raising=lambda d, _e=exc: _e if d.get("method") == "recv" else None)
+        ps = ip.explore(sfi, env={}, args={"comm": Obj(f"{API}.AllocateRequest", {"key": "k", "l": 4, "deser_fun": "d"}, name="req"), "resp_class": ClassRef(f"{API}.AllocateResponse"), "timeout_sec": 60.0})
+        ctx.evals(len(ps))
+        for p in ps:
+            rz = [e for e in p.effects if e.kind == "raise" and e.data.get("from_call")]
+            if not rz:
+                continue
+            n += 1
+            later = [e for e in p.effects if e.kind == "call" and e.data.get("method") == "send" and e.seq > rz[0].seq]
+            if later:
+                ctx.violation(rid, sfi.qual, loc(sfi, later[0].node), "no blind re-send of a command",
+                              f"the answer to a command does not arrive ({exc.rsplit('.', 1)[-1]} while receiving) and the same command is sent again: the server may have "
+                              f"executed the first one — a repeated allocate is answered 'conflict' and the caller skips writing the payload, so the dataset stays "
+                              f"unwritten and is never announced; only an explicit 'wait' answer may be retried")
+                break
+        else:
+            continue
+        break
+    else:
+        ctx.ok(rid, loc(sfi), "_send_command: a receive failure is never followed by a second send of the command")
+    ctx.floor(rid + ".recv_failures", n, 1)
+
 
 def r_disk_copy(ctx):
     """C09.R13: what page-in copies back is what page-out wrote: _page_out writes the segment's whole buffer to the spill file;
